@@ -184,7 +184,7 @@ def gossip : M Unit := do
 /-- `Foca::announce_to_down` -/
 def announceToDown (num : Nat) : M Unit := do
   let s ← getS
-  let chosen ← chooseLoop num (fun m => !m.active) s.ms [] 0
+  let chosen ← chooseLoop num (fun m => !m.active && m.id.addr != s.id.addr) s.ms [] 0
   sendAll E .announce (chosen.reverse.map (·.id))
 
 /-! ### connection state -/
@@ -365,7 +365,7 @@ def reuseDownIdentity : M Unit := do
 def setConfig (cfg : Config) : M Unit := do
   let s ← getS
   if Gen.setConfigInvalid s.cfg cfg then throwE .invalidConfig
-  else setS { s with cfg := cfg }
+  else setS { s with cfg := cfg, sendCap := if s.cfg.mps != cfg.mps then cfg.mps else s.sendCap }
 
 /-- `Foca::probe_random_member` -/
 def probeRandomMember : M Unit := do
@@ -430,7 +430,7 @@ def handleTimer (t : Timer) : M Unit := do
       | some sm =>
         handleApplySummary E sm asDown true
         adjustConnectionState E
-        if s.cfg.notifyDown then sendMessage E m .turnUndead
+        if sm.applied && s.cfg.notifyDown then sendMessage E m .turnUndead
       | none => pure ()
     else pure ()
   | .rm down => setS { s with ms := removeIfDown s.ms down }
@@ -526,7 +526,8 @@ def handleData (data : Bytes) : M Unit := do
       if !senderActive then
         if h.msg == .turnUndead then handleSelfUpdate E 0 .down
         let s ← getS
-        if s.cfg.notifyDown then sendMessage E h.src .turnUndead
+        let undeadReplyToUndead := h.msg == .turnUndead && s.conn == .undead
+        if s.cfg.notifyDown && !undeadReplyToUndead then sendMessage E h.src .turnUndead
       else
         applyMany E updates true
         let cres ← attempt (handleCustomBroadcasts E tail (some h.src))
